@@ -130,9 +130,10 @@ def value_eq(case, zv, value):
     if so == "bv":
         if isinstance(value, bool) or not isinstance(value, int):
             return None
-        if value < 0 or value >> case["w"]:
+        # a signed min/max answers with the signed integer (claripy's convention); compare as a bit pattern
+        if value < -(1 << (case["w"] - 1)) or (value >= 0 and value >> case["w"]):
             return None
-        return zv == z3.BitVecVal(value, case["w"])
+        return zv == z3.BitVecVal(value % (1 << case["w"]), case["w"])
     if so == "fp":
         if not isinstance(value, float):
             return None
@@ -164,8 +165,6 @@ def classify(case, q, value, expected):
         return f"{op}/string-value"
     if so == "fp":
         return f"{op}/fp-value"
-    if so == "bv" and isinstance(value, int) and not isinstance(value, bool) and value < 0 and q.get("signed"):
-        return f"{op}/not-nbit-pattern+signed"
     return f"{op}/{so}-value"
 
 
